@@ -361,7 +361,14 @@ def _run_f(ctx):
         for a in c.call["args"]:
             cs.operand(a)
         return cs.has_field("ClusterMetadata", "replication_targets") and excludes_learners(F, cs.closures())[0]
-    sites = calls_matching(mb, r"LeaderState::(update_lease_timestamp|drain_pending_lease_reads|execute_pending_reads)$")
+    TARGET = re.compile(r"LeaderState::(update_lease_timestamp|drain_pending_lease_reads|execute_pending_reads)$")
+    sites = []
+    for (bi, t) in mb.calls():
+        if any(TARGET.search(n) for n in callee_names(t)):
+            sites.append((bi, t))
+        elif any(tg in F.bodies and self_type_of(F, tg).endswith("LeaderState") for tg in F.resolve_targets(t)) and \
+                F.call_reaches(t, lambda k: bool(TARGET.search(strip_generics(k))) or any(TARGET.search(n) for n in core.name_variants(k)), 3):
+            sites.append((bi, t))   # an extracted helper that renews / releases
     ctx.floor("C12-f", len(sites), 2, "lease renewal / read release sites in handle_append_result")
     seen = {}
     for (bi, t) in sites:
